@@ -285,9 +285,15 @@ func runC03(r *core.Run) {
 			ce, cs := g.cond(2)
 			proj := seqInts(1, 4)
 			sel := "*"
-			if rng.Intn(2) == 0 {
+			switch rng.Intn(4) {
+			case 0:
 				proj = []int{3, 1}
 				sel = "b, t.id"
+			case 1:
+				sel = "T.*" // names are not case-sensitive
+			case 2:
+				proj = []int{1, 1, 2, 3, 4}
+				sel = "T.id, t.*"
 			}
 			sql := "SELECT " + sel + " FROM t WHERE " + cs
 			x := newRelRun(r, cpu, t)
@@ -333,9 +339,16 @@ func runC03(r *core.Run) {
 			inner := "SELECT b, id, a FROM t WHERE " + s1
 			sql := "SELECT s.a, s.id FROM (" + inner + ") s WHERE " + s2
 			sig := "select:subquery"
-			if rng.Intn(2) == 0 {
+			two := false
+			switch rng.Intn(3) {
+			case 0:
 				sql = "WITH s AS (" + inner + ") SELECT s.a, s.id FROM s WHERE " + s2
 				sig = "select:cte"
+			case 1:
+				// the common table expression referenced twice, with different projections
+				sql = "WITH s AS (" + inner + ") SELECT s.a, s.id FROM s WHERE " + s2 + " UNION ALL SELECT s.id, s.b FROM s"
+				sig = "select:cte-twice"
+				two = true
 			}
 			x := newRelRun(r, cpu, t)
 			res, _, e := x.query(sql + ";")
@@ -345,8 +358,12 @@ func runC03(r *core.Run) {
 				continue
 			}
 			rankStringsL(append(g.lits, g2.lits...), t.Rows, res)
-			evs = append(evs, relEvent{SQL: sql, Sig: sig, CPU: cpu, Ev: map[string]interface{}{"kind": "nested", "in": cellsJSON(t.Rows), "cond": c1, "proj": []int{3, 1, 2},
-				"cond2": c2, "proj2": []int{3, 2}, "res": cellsJSON(res)}})
+			kd := "nested"
+			if two {
+				kd = "cte2"
+			}
+			evs = append(evs, relEvent{SQL: sql, Sig: sig, CPU: cpu, Ev: map[string]interface{}{"kind": kd, "in": cellsJSON(t.Rows), "cond": c1, "proj": []int{3, 1, 2},
+				"cond2": c2, "proj2": []int{3, 2}, "proj3": []int{2, 1}, "res": cellsJSON(res)}})
 		case kind < 8: // ON joins
 			m := []int{0, 1, 2, 4, 9, 25, 170}[rng.Intn(7)]
 			if n > 170 {
